@@ -19,13 +19,15 @@ def load_rules(prop: str):
     return importlib.import_module(f"sfverif.rules.{prop.lower()}")
 
 
-def run_rules_on(prog: Program, prop: str, mod, tier: str) -> Ctx:
+def run_rules_on(prog: Program, prop: str, mod, tier: str, check_floors: bool = True) -> Ctx:
     ctx = Ctx(prog, prop, tier)
     for rid, fn in mod.RULES:
         ctx.rules_run.append(rid)
         fn(ctx)
-    for rid, n in getattr(mod, "FLOORS", {}).items():
-        ctx.floor(rid, n)
+    # floors guard against vacuous passes: they only matter when nothing was reported
+    if check_floors and not ctx.findings:
+        for rid, n in getattr(mod, "FLOORS", {}).items():
+            ctx.floor(rid, n)
     return ctx
 
 
@@ -37,6 +39,9 @@ def check(prop: str, tier: str, root: str = REPO) -> int:
         raise AnalysisError(f"only {prog.stats()['units']} units parsed under {root} (floor 90)")
     ctx = run_rules_on(prog, prop, mod, tier)
     known_hit, new = split_known(ctx.findings)
+    if not new:
+        for rid, n in getattr(mod, "FLOORS", {}).items():
+            ctx.floor(rid, n)
     selftest = None
     st_error = None
     variants = list(getattr(mod, "VARIANTS", []))
@@ -72,6 +77,8 @@ def check(prop: str, tier: str, root: str = REPO) -> int:
         for d in selftest["details"]:
             if d["status"].startswith(("skipped", "inconclusive")):
                 print(f"  self-test note: {d['variant']}: {d['status']}")
+    if st_error is not None and new:
+        print(f"SELFTEST-NOTE (not deciding the exit status while violations are reported): {st_error}")
     if new:
         for i, f in enumerate(new):
             path = write_replay(prop, i, f)
